@@ -268,8 +268,9 @@ def r_average(ctx, model):
     ctx.fn(f"{NS}:clear_gamma_point")
     w = model.where(ref, f)
     mod = model.mods[NS]
-    if len(f.args.args) != 2:
+    if len(f.args.args) < 2 or len(f.args.args) - len(f.args.defaults) > 2:
         raise AnalysisError("average_over_modes no longer takes (amount, q_weights)")
+    # further parameters with defaults: folded at their defaults here; what the callers pass is seen by the cell-by-cell fold R01.13
 
     def table(batch, nq, np_):
         cells = {(j, k): sp.Symbol(f"X_{j}_{k}", real=True) for j in range(nq) for k in range(np_)}
